@@ -4290,7 +4290,26 @@ fn entity_value_from_name(
     context: &Context,
     in_attribute: bool,
 ) -> error::Result<String> {
+    entity_value_expanding(name, context, in_attribute, &mut vec![])
+}
+
+/// `expanding` holds the names of the entities whose replacement text is being built: an entity
+/// that refers to itself, directly or indirectly, is an error (WFC: No Recursion), not an endless
+/// expansion.
+fn entity_value_expanding(
+    name: &str,
+    context: &Context,
+    in_attribute: bool,
+    expanding: &mut Vec<String>,
+) -> error::Result<String> {
+    if expanding.iter().any(|v| v == name) {
+        return Err(error::Error::InvalidData(format!(
+            "entity '{}' refers to itself",
+            name
+        )));
+    }
     let entity = context.entity(name)?;
+    expanding.push(name.to_string());
     let mut parsed = String::new();
     for value in entity.borrow().values().unwrap_or_default() {
         match &value {
@@ -4307,7 +4326,7 @@ fn entity_value_from_name(
                 }
             }
             XmlEntityValue::Entity(v) => {
-                let v = entity_value_from_name(v, context, in_attribute)?;
+                let v = entity_value_expanding(v, context, in_attribute, expanding)?;
                 parsed.push_str(v.as_str());
             }
             XmlEntityValue::Parameter(v) => {
@@ -4320,6 +4339,7 @@ fn entity_value_from_name(
             XmlEntityValue::Text(v) => parsed.push_str(v),
         }
     }
+    expanding.pop();
     Ok(parsed)
 }
 
